@@ -184,6 +184,12 @@ class Sampler:
         :return: Sampled batch of experiences
         :rtype: TensorDict
         """
+        # The prioritised buffer hands its indices out as a column of shape (batch_size, 1). Indexing the
+        # n-step storage with that column would return a batch with an extra axis, which the loss then
+        # broadcasts against the 1-step batch (every sample would be paired with every n-step return)
+        if isinstance(idxs, torch.Tensor):
+            idxs = idxs.reshape(-1)
+
         return self.memory.sample_from_indices(idxs)
 
     @classmethod
